@@ -60,6 +60,18 @@ Theorem C06_L4_read_pmt_then_anything : forall c pid items tail,
 Proof. exact read_pmt_then_anything. Qed.
 Print Assumptions C06_L4_read_pmt_then_anything.
 
+(* an INTERRUPTED transmission (packets carrying only a proper prefix of the payload of one PMT, then a new
+   payload_unit_start) followed by a complete transmission: the reader restarts and returns the complete one *)
+Theorem C06_L4_read_pmt_after_interrupted : forall ca cb pid items_a items_b tail,
+  wf_carrier ca -> wf_carrier cb -> sstreams (sec cb) <> [] ->
+  Forall (wf_item pid) items_a -> Forall (wf_item pid) items_b ->
+  (exists R n, concat (chunks items_a) ++ R = ser_unit ca ++ repeatN 255 n) ->
+  len (concat (chunks items_a)) < len (ser_unit ca) -> cuts_ok ca items_a ->
+  (exists n, concat (chunks items_b) = ser_unit cb ++ repeatN 255 n) -> cuts_ok cb items_b ->
+  read_pmt (packetise pid items_a ++ packetise pid items_b ++ tail) pid = Ok (sec_result (sec cb)).
+Proof. exact read_pmt_after_interrupted. Qed.
+Print Assumptions C06_L4_read_pmt_after_interrupted.
+
 (* without preceding sections EVERY split is a packetisation: no condition on the cut points *)
 Theorem C06_L4_read_pmt_any_split : forall c pid items,
   wf_carrier c -> pre c = [] -> sstreams (sec c) <> [] -> Forall (wf_item pid) items ->
